@@ -779,6 +779,21 @@ class StreamRunner:
 
 # --------------------------------------------------------------------------- client programs (C28, C29, C30 client half)
 
+def quiet_thread_errors():
+    """paramiko's prefetch threads die with socket.error / EOFError once the harness has closed a wedged session;
+    keep those tracebacks off stderr (anything else is still printed)"""
+    if getattr(threading, "_verif_hook", False):
+        return
+    prev = threading.excepthook
+
+    def hook(args):
+        if issubclass(args.exc_type, (OSError, EOFError)) or args.exc_type.__name__ == "SSHException":
+            return
+        prev(args)
+    threading.excepthook = hook
+    threading._verif_hook = True
+
+
 class ProgramRunner:
     """runs one application program (a list of abstract ops) on a real SFTPClient against a real SFTPServer and
     returns the trace records for SftpClientProto_Trace.  Every call runs on a persistent worker thread under a
@@ -790,6 +805,7 @@ class ProgramRunner:
 
     def __init__(self, root, size, seed, short=False, quiet=0.25, confirm=2.0, deadline=30.0, faults=None):
         import random
+        quiet_thread_errors()
         self.rnd = random.Random(seed)
         self.root = str(root)
         os.makedirs(self.root, exist_ok=True)
@@ -798,13 +814,13 @@ class ProgramRunner:
         with open(os.path.join(self.root, "r"), "wb") as f:
             f.write(self.data)
         self.kn = Knobs()
-        self.kn.watch = "r"
         self.kn.log_reads = True
         if short:
             srnd = random.Random(seed + 1)
             self.kn.short = lambda off, ln: srnd.choice([1, ln, ln, max(1, ln // 2), srnd.randint(1, ln)])
         if faults:
             self.kn.read_fault = dict(faults.get("read", {}))
+            self.kn.write_fault = dict(faults.get("write", {}))
         self.sess = Session(self.root, self.kn)
         self.client = self.sess.client()
         self.worker = Worker(None)
@@ -846,6 +862,55 @@ class ProgramRunner:
         if res[0] == "hang":
             self.wedged = True
         return res
+
+    def transfer(self, op, rec):
+        """one put / putfo / get / getfo with at most one faulty chunk; rec gets same / rejected"""
+        import io
+        kn = self.kn
+        kn.reset_counts()
+        kn.log_reads = True
+        kn.read_fault, kn.write_fault = {}, {}
+        if op["fault"] == "write_rejected":
+            kn.write_fault = {op["pos"]: op["code"]}
+        elif op["fault"] in ("read_failed", "read_eof"):
+            kn.read_fault = {op["pos"]: op["code"]}
+        calls = []
+        cb = (lambda a, b: calls.append((a, b))) if op.get("callback") else None
+        if op["op"] == "put":
+            src = self.rnd.randbytes(op["size"])
+            local = os.path.join(self.root, "..", os.path.basename(self.root) + ".src")
+            with open(local, "wb") as f:
+                f.write(src)
+            dst = os.path.join(self.root, "w")
+            if os.path.exists(dst):
+                os.remove(dst)
+            if op.get("fo"):
+                fn = lambda: self.client.putfo(io.BytesIO(src), "w", len(src), cb, op["confirm"])    # noqa: E731
+            else:
+                fn = lambda: self.client.put(local, "w", cb, op["confirm"])                         # noqa: E731
+            outcome = self.call(("put",), fn)
+            got = open(dst, "rb").read() if os.path.exists(dst) else None
+            rec["same"] = got == src
+        else:
+            local = os.path.join(self.root, "..", os.path.basename(self.root) + ".dst")
+            if os.path.exists(local):
+                os.remove(local)
+            m = op.get("maxc") or None
+            if op.get("fo"):
+                buf = io.BytesIO()
+                fn = lambda: self.client.getfo("r", buf, cb, op["prefetch"], m)                     # noqa: E731
+            else:
+                fn = lambda: self.client.get("r", local, cb, op["prefetch"], m)                     # noqa: E731
+            outcome = self.call(("get", op["prefetch"]), fn)
+            if op.get("fo"):
+                got = buf.getvalue()
+            else:
+                got = open(local, "rb").read() if os.path.exists(local) else None
+            rec["same"] = got == self.data
+        rec["rejected"] = sum(1 for _, _, code in kn.write_log if code != 0)
+        rec["callbacks"] = len(calls)
+        kn.read_fault, kn.write_fault = {}, {}
+        return outcome
 
     def locate(self, blob, pos):
         if not blob:
@@ -930,6 +995,8 @@ class ProgramRunner:
             elif k == "closeR":
                 outcome = self.call(("closeR",), self.reader().close)
                 self.fr = None
+            elif k in ("put", "get"):
+                outcome = self.transfer(op, rec)
             else:
                 raise ValueError(k)
             rec["out"] = {"ok": "ok", "exc": "exc", "hang": "hang"}[outcome[0]]
